@@ -275,6 +275,9 @@ def classify_restart_diff(comp, a, b, case, phase=None):
         return "C01:snapshot-stale-tail"
     racy = not case.get("pace", False)
     if comp == "cache":
+        # (the recorded finding makes every restored entry invisible; whatever the replayed log then does to such a key -
+        #  an Incr that restarts from zero, a Set-if-absent that now succeeds - differs as well: not separable on dumps.
+        #  The OTHER direction, a lifetime that GROWS through a snapshot, is checked directly in part B2 below.)
         return "C01:direct-cache-snapshot-expired"
     if comp == "mcp":
         return "C01:mcp-toolspec-roundtrip"
@@ -571,6 +574,28 @@ def run(chk, replay=None):
             mism += 1
             chk.violation("model != implementation (temporary value through a snapshot): model ([1],[0]) impl (%s,%s)" % (ha, hb),
                           {"suite": "dispatch", "case": tcase, "impl": [ha, hb], "correspondence": "SM.ConcreteInst.tmp_value_snapshot_refuted"}, False)
+
+    # ---- B2. direct-cache entries through a snapshot: a finite lifetime must never grow --------------------------------
+    # node A holds entries with a finite expiry (a login token, a counter); a fresh node B loads A's real snapshot.  On B an
+    # entry may be gone (the recorded finding: it fails closed) but it must not live longer than on A (permanent / later expiry).
+    cset = dict(samples_b2 := lib.harness_run("dispatch", [{"k": "samples"}], env=env)[0]["samples"])
+    creqs = [q for k_, q in cset.items() if k_.startswith("CacheReq/") and "Limit" not in k_ and ("Set" in k_ or "Incr" in k_ or "Decr" in k_)]
+    inst = lib.harness_run("dispatch", [{"k": "install", "reqs": creqs, "prefix": 0}], env=env)[0]
+    n_eval += 1
+    if inst.get("r") != "ok":
+        chk.violation("install case failed: %s" % json.dumps(inst)[:200], {"suite": "dispatch", "case": {"k": "install", "reqs": creqs, "prefix": 0}}, True)
+    else:
+        ca = {(e.get("type"), e.get("key")): e for e in inst["a_final"]["cache"]}
+        for e in inst["b_installed"]["cache"]:
+            va = ca.get((e.get("type"), e.get("key")), {})
+            vis_b = (e.get("exists") or {}).get("Exists") is True
+            if vis_b and va.get("expire") is not None and (e.get("expire") is None or e["expire"] > va["expire"]):
+                chk.classify("C01:cache-lifetime-grows", "direct-cache entry %s with expiry %s on the node that wrote it is %s on a node that "
+                             "loaded its snapshot: a lifetime grows through the snapshot (an expired login token would be accepted)"
+                             % (e.get("key"), va.get("expire"), "PERMANENT" if e.get("expire") is None else "valid until %s" % e["expire"]),
+                             {"suite": "dispatch", "case": {"k": "install", "reqs": creqs, "prefix": 0}, "writer": va, "loader": e})
+            if (va.get("exists") or {}).get("Exists") is True:
+                nontrivial.add(("cache-lifetime", e.get("key"), vis_b))
 
     # ---- C. restart oracle on a real single-node Raft ------------------------------------------------------
     samples = lib.harness_run("dispatch", [{"k": "samples"}], env=env)[0]["samples"]
